@@ -62,10 +62,10 @@ struct Slot {
 };
 
 // ---- raster images: one logical image stored in several layouts
-enum { G_PLAIN = 0, G_CHUNK, G_CHUNK_COMP, G_COMP, G_KINDS };
+enum { G_PLAIN = 0, G_CHUNK, G_CHUNK_COMP, G_COMP, G_EXT, G_KINDS };
 static const char *gname(int k)
 {
-    static const char *n[] = {"gr-plain", "gr-chunked", "gr-chunked+compressed", "gr-compressed"};
+    static const char *n[] = {"gr-plain", "gr-chunked", "gr-chunked+compressed", "gr-compressed", "gr-external"};
     return n[k % G_KINDS];
 }
 struct GVar {
@@ -153,7 +153,7 @@ struct Layout : Profile {
         return {"chunked", "chunked+compressed", "chunked+nbit", "compressed", "nbit", "external", "blocksize", "edge-chunk", "chunk-write",
                 "chunk-read", "cache-1", "fill-checked", "reopen", "unlimited-grow", "strided-read", "chunk-larger-than-extent",
                 "layout-selected-later", "high-rank", "rank>=19", "gr-chunked", "gr-chunked+compressed", "gr-compressed", "gr-chunk-write", "gr-chunk-read", "gr-chunk-read-interlaced", "gr-chunk-read-interlaced-nonsquare",
-                "gr-chunk-write-interlaced-nonsquare"};
+                "gr-chunk-write-interlaced-nonsquare", "gr-external"};
     }
 
     // ------------------------------------------------------------------ generator
@@ -232,7 +232,7 @@ struct Layout : Profile {
             p.ops.push_back(mkop(0, "gslot", {gw, gh, r.range(1, 3), (int64_t)r.below(NLT), (int64_t)r.below(3), (int64_t)r.below(2), (int64_t)(r.next() >> 16)}));
             int nv = (int)r.range(1, MAXVAR - 1);
             for (int v = 0; v < nv; v++)
-                p.ops.push_back(mkop(0, "gvariant", {1 + (int64_t)r.below(3), r.chance(0.1) ? gw + 1 : r.range(1, gw), r.chance(0.1) ? gh + 1 : r.range(1, gh),
+                p.ops.push_back(mkop(0, "gvariant", {1 + (int64_t)r.below(4), r.chance(0.1) ? gw + 1 : r.range(1, gw), r.chance(0.1) ? gh + 1 : r.range(1, gh),
                                                      1 + (int64_t)r.below(3), r.range(1, 9), r.chance(0.4) ? 1 : r.range(0, 6)}));
         }
         int nops = (int)r.range(12, thorough ? 90 : 60);
@@ -421,6 +421,8 @@ struct Layout : Profile {
             }
             else if (x.kind == G_COMP)
                 rc = GRsetcompress(ri, ct, &ci);
+            else if (x.kind == G_EXT) // every external variant has its own place in ONE external file
+                rc = GRsetexternalfile(ri, "/sim/lay_grext.dat", 64 + v * 8192);
             if (rc == FAIL)
                 s.ctx.fail("layout-refused", strf("layout-refused:%s", gname(x.kind)), strf("selecting the %s layout for a new image failed: %s", gname(x.kind), herr().c_str()));
             if (x.chunked() && x.cache > 0)
